@@ -32,9 +32,11 @@ Record oquirks := {
   q_dry_keeps_storage : bool;          (* DRYRule.finalize does not reset _storage: block rows survive a run *)
   q_lintfile_leaves_evidence : bool;   (* a bare lint_file call leaves its cross-file evidence for the next run to report *)
   q_consts_in_processing_order : bool; (* duplicate-constant messages list the other locations in processing order *)
+  q_ignore_parser_reused : bool;       (* a new Linter/Orchestrator for the same root gets the process-wide ignore parser of an
+                                          earlier one (get_ignore_parser singleton): patterns and decisions of the earlier object *)
   q_api_file_no_finalize : bool        (* Linter.lint(file) calls lint_file: no finalize, no cross-file findings (C10) *)
 }.
-Definition ideal : oquirks := Build_oquirks false false false false.
+Definition ideal : oquirks := Build_oquirks false false false false false.
 
 (* ---------- canonical order of file versions (insertion sort, lexicographic) ---------- *)
 Definition fv_leb (a b : fv) : bool := (fst a <? fst b) || ((fst a =? fst b) && (snd a <=? snd b)).
@@ -65,9 +67,10 @@ Record ostate := {
   dry_rows : list fv;      (* DRYRule._storage: block rows of every check() since the storage was created / reset *)
   dry_aux : list fv;       (* DRYRule._constants, _file_contents and the inline-ignore ranges: files checked since the last finalize *)
   st_ev : list fv;         (* StringlyTypedRule._storage *)
+  ppats : option content;  (* IgnoreDirectiveParser.repo_patterns: the version of the ignore file loaded when the parser was built *)
   icache : list (path * bool)   (* IgnoreDirectiveParser._ignore_cache *)
 }.
-Definition init : ostate := Build_ostate [] [] [] [].
+Definition init_st (pp : option content) : ostate := Build_ostate [] [] [] pp [].
 
 Inductive target := TFile (p : path) | TDir (d : nat) (listing : list path).
 
@@ -78,7 +81,8 @@ Inductive op :=
 | ApiLint (t : target)
 | Edit (p : path) (c : content)
 | Delete (p : path)
-| Add (p : path) (c : content).
+| Add (p : path) (c : content)
+| NewLinter.      (* the embedding process drops its Linter and builds a new one for the same project root *)
 
 (* one step's output, by origin *)
 Record out (V : Type) := { o_pf : list V; o_blocks : list V; o_consts : list V; o_st : list V }.
@@ -91,23 +95,26 @@ Section Orch.
   Variable perfile : path -> option content -> list V.
   Variable rep_blocks : list fv -> list fv -> list V.
   Variable rep_consts rep_st : list fv -> list V.
-  Variable hard_excl ignored : path -> bool.
+  Variable hard_excl : path -> bool.
+  Variable ignored : option content -> path -> bool.   (* patterns of that version of the ignore file match the path *)
+  Variable ign_path : path.                            (* the ignore file itself *)
   Variable in_dir : nat -> path -> bool.
 
-  Definition cached_ignored (ic : list (path * bool)) (p : path) : bool * list (path * bool) :=
-    match passoc p ic with Some b => (b, ic) | None => (ignored p, (p, ignored p) :: ic) end.
+  Definition cached_ignored (pp : option content) (ic : list (path * bool)) (p : path) : bool * list (path * bool) :=
+    match passoc p ic with Some b => (b, ic) | None => (ignored pp p, (p, ignored pp p) :: ic) end.
 
-  Definition set_icache (st : ostate) ic := Build_ostate (dry_rows st) (dry_aux st) (st_ev st) ic.
+  Definition set_icache (st : ostate) ic := Build_ostate (dry_rows st) (dry_aux st) (st_ev st) (ppats st) ic.
+  Definition mk_init (fs : fsys) : ostate := init_st (fs_get fs ign_path).
 
   (* Orchestrator.lint_file: guards in source order, then every rule's check() *)
   Definition lint_file1 (fs : fsys) (st : ostate) (p : path) : ostate * list V :=
     if smem "_is_hardcoded_excluded" lint_file_guards && hard_excl p then (st, [])
     else
-      let '(ig, ic) := if smem "is_ignored" lint_file_guards then cached_ignored (icache st) p else (false, icache st) in
+      let '(ig, ic) := if smem "is_ignored" lint_file_guards then cached_ignored (ppats st) (icache st) p else (false, icache st) in
       if ig then (set_icache st ic, [])
       else match fs_get fs p with
            | None => (set_icache st ic, perfile p None)
-           | Some c => (Build_ostate (dry_rows st ++ [(p, c)]) (dry_aux st ++ [(p, c)]) (st_ev st ++ [(p, c)]) ic,
+           | Some c => (Build_ostate (dry_rows st ++ [(p, c)]) (dry_aux st ++ [(p, c)]) (st_ev st ++ [(p, c)]) (ppats st) ic,
                         perfile p (Some c))
            end.
 
@@ -126,7 +133,7 @@ Section Orch.
     (Build_ostate (if smem "_storage" (dry_resets q) then [] else dry_rows st)
                   (if aux_cleared q then [] else dry_aux st)
                   (if st_clears then [] else st_ev st)
-                  (icache st),
+                  (ppats st) (icache st),
      Build_out [] (rep_blocks (dry_rows st) (dry_aux st)) (rep_consts (consts_view q (dry_aux st))) (rep_st (st_ev st))).
 
   Definition with_pf (pf : list V) (o : out V) : out V := Build_out (pf ++ o_pf o) (o_blocks o) (o_consts o) (o_st o).
@@ -138,7 +145,7 @@ Section Orch.
     else (s1, Build_out pf [] [] []).
 
   Definition keep_evidence (old new : ostate) : ostate :=
-    Build_ostate (dry_rows old) (dry_aux old) (st_ev old) (icache new).
+    Build_ostate (dry_rows old) (dry_aux old) (st_ev old) (ppats new) (icache new).
 
   (* a bare single-file call *)
   Definition run_single (q : oquirks) (entry : string) (fs : fsys) (st : ostate) (p : path) : ostate * out V :=
@@ -164,6 +171,9 @@ Section Orch.
     | Edit p c => ((st, match fs_get fs p with Some _ => fs_set fs p c | None => fs end), out_nil)
     | Delete p => ((st, fs_remove fs p), out_nil)
     | Add p c => ((st, fs_set fs p c), out_nil)
+    | NewLinter =>
+        (* new rule objects; the ignore parser is the process-wide one of the previous object, or a newly built one *)
+        ((if q_ignore_parser_reused q then Build_ostate [] [] [] (ppats st) (icache st) else mk_init fs, fs), out_nil)
     end.
 
   Fixpoint run (q : oquirks) (w : ostate * fsys) (h : list op) : (ostate * fsys) * list (out V) :=
@@ -183,7 +193,7 @@ Section Orch.
   Definition fs_after (fs : fsys) (h : list op) : fsys := fold_left fs_step h fs.
 
   (* what a fresh object returns for operation o on file system fs *)
-  Definition fresh (q : oquirks) (fs : fsys) (o : op) : out V := snd (step q (init, fs) o).
+  Definition fresh (q : oquirks) (fs : fsys) (o : op) : out V := snd (step q (mk_init fs, fs) o).
 
   (* ---------- the command line: files together through one entry point, then every directory (C10) ---------- *)
   Definition cli_ops (files : list path) (dirs : list (nat * list path)) : list op :=
@@ -191,7 +201,7 @@ Section Orch.
   Definition is_entry (e name : string) : bool := String.eqb e name.
   Definition cli_run (q : oquirks) (fs : fsys) (files : list path) (dirs : list (nat * list path)) : list (out V) :=
     if is_entry cli_files_entry "lint_files" && is_entry cli_dirs_entry "lint_directory"
-    then snd (run q (init, fs) (cli_ops files dirs)) else [].
+    then snd (run q (mk_init fs, fs) (cli_ops files dirs)) else [].
   Definition api_run (q : oquirks) (fs : fsys) (t : target) : out V := fresh q fs (ApiLint t).
 End Orch.
 
